@@ -32,7 +32,7 @@ def run_sweep(binary, samples, seed_, shards=None):
 
 def trace_record(r):
     c = r["counts"]
-    return {"name": r["name"], "calls": r["calls"], "literal": c["literal"], "fingerprint": c["fingerprint"], "target": c["target"], "other": c["other"]}
+    return {"name": r["name"], "calls": r["calls"], "literal": c["literal"], "macrolit": c.get("macrolit", 0), "fingerprint": c["fingerprint"], "target": c["target"], "other": c["other"]}
 
 
 def flagged(t, classes):
@@ -63,6 +63,11 @@ def sweep(V, work, binary, tier, classes):
         raise MachineryError("vacuity: the sweep did not see the documented mutators %s change the value they were handed" % missing)
     nviol = 0
     clean = []
+    if "literal" in classes:
+        for r, t in zip(recs, trace):
+            if t["macrolit"]:
+                for b in [b for b in (r.get("bad") or []) if b["class"] == "macrolit"][:1]:
+                    V.add("macro-template-literal", "a literal written in a macro template does not survive %s" % b["call"], {"call": b["call"], "before": b["before"], "after": b["after"]})
     for r, t in zip(recs, trace):
         fl = flagged(t, classes)
         allfl = flagged(t, {"literal", "fingerprint", "target", "other"})
